@@ -107,26 +107,35 @@ func (sto *unionStorage) Fetch(ctx context.Context, b blob.Ref) (file io.ReadClo
 	return nil, 0, firstErr
 }
 
-// StatBlobs on all BlobStatter reads sequentially, returning the first error.
+// StatBlobs on all BlobStatter reads concurrently, returning the first error.
 func (sto *unionStorage) StatBlobs(ctx context.Context, blobs []blob.Ref, f func(blob.SizedRef) error) error {
 	if err := ctx.Err(); err != nil {
 		return err
 	}
+	ctx, cancel := context.WithCancel(ctx)
+	defer cancel()
+
 	// need to dedup the blobs
 	maybeDup := make(chan blob.SizedRef)
-	errCh := make(chan error, 1)
+	errCh := make(chan error, len(sto.subsets)) // one result per statter, never blocks
 	var wg sync.WaitGroup
 	var any bool
 	for _, s := range sto.subsets {
 		if bs, ok := s.(blobserver.BlobStatter); ok {
 			any = true
 			wg.Go(func() {
-				if err := bs.StatBlobs(ctx, blobs, func(sr blob.SizedRef) error {
-					maybeDup <- sr
-					return nil
-				}); err != nil {
-					errCh <- err
+				err := bs.StatBlobs(ctx, blobs, func(sr blob.SizedRef) error {
+					select {
+					case maybeDup <- sr:
+						return nil
+					case <-ctx.Done():
+						return ctx.Err()
+					}
+				})
+				if err != nil {
+					cancel() // stop the others
 				}
+				errCh <- err
 			})
 		}
 	}
@@ -134,32 +143,42 @@ func (sto *unionStorage) StatBlobs(ctx context.Context, blobs []blob.Ref, f func
 		return errors.New("union: No BlobStatter reader configured")
 	}
 
-	var closeChanOnce sync.Once
+	// maybeDup is only closed once nobody can send on it anymore.
 	go func() {
 		wg.Wait()
-		closeChanOnce.Do(func() { close(maybeDup) })
+		close(maybeDup)
 	}()
 
+	var fnErr error
 	seen := make(map[blob.Ref]struct{}, len(blobs))
-	for {
-		select {
-		case <-ctx.Done():
-			return ctx.Err()
-		case err := <-errCh:
-			closeChanOnce.Do(func() { close(maybeDup) })
-			return err
-		case sr, ok := <-maybeDup:
-			if !ok {
-				return nil
-			}
-			if _, ok = seen[sr.Ref]; !ok {
-				seen[sr.Ref] = struct{}{}
-				if err := f(sr); err != nil {
-					return err
-				}
+	for sr := range maybeDup {
+		if fnErr != nil {
+			continue // draining
+		}
+		if _, ok := seen[sr.Ref]; !ok {
+			seen[sr.Ref] = struct{}{}
+			if err := f(sr); err != nil {
+				fnErr = err
+				cancel()
 			}
 		}
 	}
+	if fnErr != nil {
+		return fnErr
+	}
+	// All the statters are done. Report a failure of any of them, preferably
+	// not the cancellation that it caused in the others.
+	close(errCh)
+	var firstErr error
+	for err := range errCh {
+		if err == nil {
+			continue
+		}
+		if firstErr == nil || errors.Is(firstErr, context.Canceled) {
+			firstErr = err
+		}
+	}
+	return firstErr
 }
 
 // EnumerateBlobs concurrently on the readers, returning one of the errors.
